@@ -339,7 +339,9 @@ def decoder_block(draw, cls, in_runs):
                                         {'channel_update': True}, {'osd_order': 3}],
         'MatchingDecoder': [{'error_type': 'X'}, {'error_type': 'Z'}, {'error_type': None}],
         'RotatedSweepMatchDecoder': [{'max_rounds': 4}, {'max_rounds': 8}, {'max_rounds': 1}],
-        'MemoryBeliefPropagationDecoder': [{'max_bp_iter': 2}, {'max_bp_iter': 3, 'alpha': 0.5}],
+        'MemoryBeliefPropagationDecoder': [{'max_bp_iter': 2}, {'max_bp_iter': 3, 'alpha': 0.5},
+                                           {'max_bp_iter': 2, 'beta': 0.5},
+                                           {'max_bp_iter': 2, 'alpha': 0.3, 'beta': 0.25}],
     }.get(name, [])
     form = draw(st.sampled_from(['absent', 'empty', 'dict', 'list'] if not in_runs
                                 else ['absent', 'empty', 'dict']))
